@@ -354,6 +354,10 @@ func vC16Required(stmt influxql.Statement, def string, allDBs []string) (req vRe
 	case *influxql.ShowSeriesStatement:
 		return vReq{Needs: vShowNeeds(s.Database, s.Sources, def)}, true
 	case *influxql.ShowMeasurementsStatement:
+		// SHOW MEASUREMENTS / TAG KEYS / TAG VALUES read the ON (or request) database only: a database
+		// qualifier on a source is ignored at execution (confirmed on a real node by
+		// TestVerifC16KFExecution: with "FROM db2..m" even an administrator gets db0's answer).
+		// The wildcard form ON *.* is never generated (it returned no rows for any user on a real node).
 		if s.WildcardDatabase {
 			r := map[string]bool{}
 			for _, d := range allDBs {
@@ -361,15 +365,11 @@ func vC16Required(stmt influxql.Statement, def string, allDBs []string) (req vRe
 			}
 			return vReq{Needs: vSortedNeeds(r, nil)}, true
 		}
-		var srcs influxql.Sources
-		if s.Source != nil {
-			srcs = influxql.Sources{s.Source}
-		}
-		return vReq{Needs: vShowNeeds(s.Database, srcs, def)}, true
+		return vReq{Needs: vShowNeeds(s.Database, nil, def)}, true
 	case *influxql.ShowTagKeysStatement:
-		return vReq{Needs: vShowNeeds(s.Database, s.Sources, def)}, true
+		return vReq{Needs: vShowNeeds(s.Database, nil, def)}, true
 	case *influxql.ShowTagValuesStatement:
-		return vReq{Needs: vShowNeeds(s.Database, s.Sources, def)}, true
+		return vReq{Needs: vShowNeeds(s.Database, nil, def)}, true
 	case *influxql.ShowFieldKeysStatement:
 		return vReq{Needs: vShowNeeds(s.Database, s.Sources, def)}, true
 	case *influxql.ShowRetentionPoliciesStatement:
@@ -478,12 +478,12 @@ type vC16Stmt struct {
 	Text string
 }
 
+// vSigZeroUsersMulti is the signature of a repaired defect (directed regression tests); the others are
 // known-finding shapes, never produced by the main generator (see the KF tests)
 const (
 	vSigZeroUsersMulti = "first-admin-request-carries-extra-statements"
 	vSigCardOn         = "show-cardinality-on-database-unchecked"
 	vSigShowFrom       = "show-from-other-database-unchecked"
-	vSigShowWildcard   = "show-measurements-wildcard-unchecked"
 	vSigCQ             = "create-cq-select-privileges-unchecked"
 )
 
@@ -643,35 +643,39 @@ func vC16DrawStmt(rt *rapid.T, def string, ex vExcluder) vC16Stmt {
 	case "ShowRetentionPoliciesStatement":
 		on, _ := vOptOn(rt)
 		return vC16Stmt{kind, "SHOW RETENTION POLICIES" + on}
-	case "ShowSeriesStatement", "ShowTagKeysStatement", "ShowFieldKeysStatement", "ShowTagValuesStatement", "ShowMeasurementsStatement":
-		// a FROM source naming another database than the statement's own is a known-finding shape
-		if risky {
-			ex.Exclude(vSigShowFrom)
-			if kind == "ShowMeasurementsStatement" {
-				ex.Exclude(vSigShowWildcard)
-			}
+	case "ShowTagKeysStatement", "ShowTagValuesStatement", "ShowMeasurementsStatement":
+		// these three ignore a source's database qualifier at execution: any qualifier may be drawn
+		on, _ := vOptOn(rt)
+		from := ""
+		if rapid.Bool().Draw(rt, "withFrom") {
+			from = vAnyFrom(rt)
 		}
-		on, db := vOptOn(rt)
-		eff := vOr(db, def)
 		switch kind {
-		case "ShowSeriesStatement":
-			return vC16Stmt{kind, "SHOW SERIES" + on + vSafeFrom(rt, eff, false)}
 		case "ShowTagKeysStatement":
-			return vC16Stmt{kind, "SHOW TAG KEYS" + on + vSafeFrom(rt, eff, false)}
-		case "ShowFieldKeysStatement":
-			return vC16Stmt{kind, "SHOW FIELD KEYS" + on + vSafeFrom(rt, eff, false)}
+			return vC16Stmt{kind, "SHOW TAG KEYS" + on + from}
 		case "ShowTagValuesStatement":
-			return vC16Stmt{kind, "SHOW TAG VALUES" + on + vSafeFrom(rt, eff, false) + " WITH KEY = k"}
+			return vC16Stmt{kind, "SHOW TAG VALUES" + on + from + " WITH KEY = k"}
 		default:
 			w := ""
 			if rapid.Bool().Draw(rt, "withMeasurement") {
 				w = " WITH MEASUREMENT = m"
-				if eff != "" && rapid.Bool().Draw(rt, "qualifySame") {
-					w = " WITH MEASUREMENT = " + eff + "..m"
+				if rapid.Bool().Draw(rt, "qualify") {
+					w = " WITH MEASUREMENT = " + vDrawDB(rt, "srcDB") + "..m"
 				}
 			}
 			return vC16Stmt{kind, "SHOW MEASUREMENTS" + on + w}
 		}
+	case "ShowSeriesStatement", "ShowFieldKeysStatement":
+		// a FROM source naming another database than the statement's own is a known-finding shape
+		if risky {
+			ex.Exclude(vSigShowFrom)
+		}
+		on, db := vOptOn(rt)
+		eff := vOr(db, def)
+		if kind == "ShowSeriesStatement" {
+			return vC16Stmt{kind, "SHOW SERIES" + on + vSafeFrom(rt, eff, false)}
+		}
+		return vC16Stmt{kind, "SHOW FIELD KEYS" + on + vSafeFrom(rt, eff, false)}
 	case "ShowSeriesCardinalityStatement", "ShowMeasurementCardinalityStatement":
 		what := "SERIES"
 		if kind == "ShowMeasurementCardinalityStatement" {
